@@ -10,7 +10,7 @@ A method = {"ret": "I"|"J", "params": ["I"|"J", ...], "body": [stmt]}.  Register
   ("cmpl", dst_int, a_long, b_long)
   ("if", cmp, a, b|None, then, else)  cmp in eq ne lt ge gt le; b None = compare with zero; int registers
   ("loop", counter, n, body)         counter = n; while (counter > 0) { body; counter -= 1 }
-  ("switch", reg, [case bodies], default body)   packed switch on (reg & 3) copied to the scratch register s0 (never a loop counter: a switch inside a loop must not clobber the counter)
+  ("switch", reg, [case bodies; an int k = the same target as case k], default body)   packed switch on (reg & 3) copied to the scratch register s0 (never a loop counter: a switch inside a loop must not clobber the counter)
   ("ret", reg)
 """
 import os
@@ -114,7 +114,10 @@ def gen_method(rng, idx):
             state["counters"].append(c)
             return s
         state["depth"] += 1
-        s = ("switch", anyi(), [block(rng.randint(1, 2)) for _ in range(rng.randint(1, 3))], block(rng.randint(0, 1)))
+        cases = [block(rng.randint(1, 2)) for _ in range(rng.randint(1, 3))]
+        if len(cases) < 4 and rng.random() < 0.4:                   # two keys with one target block
+            cases.insert(rng.randint(1, len(cases)), rng.randrange(0, 1))
+        s = ("switch", anyi(), cases, block(rng.randint(0, 1)))
         state["depth"] -= 1
         return s
 
@@ -147,6 +150,31 @@ def gen_pattern(rng, idx):
         body += [("loop", "c0", rng.randint(2, 3), [first, ("if", "ne", "p1", None, [over], []), use])]
     body.append(("ret", u))
     return {"name": "m%d" % idx, "ret": pt, "params": [pt, "I"], "body": body}
+
+
+def gen_cast_chain(rng, idx):
+    """two conversions in a row through a single-use temporary, every pair of byte / short / char (and int-long-int around
+    them): a writer that drops the outer or the inner cast changes the value for arguments with bit 7 or bit 15 set"""
+    narrow = ("int-to-byte", "int-to-short", "int-to-char")
+    a, b = rng.choice(narrow), rng.choice(narrow)
+    body = [("const", r, 0) for r in ("i0", "i1", "i2", "i3")] + [("const", r, 0) for r in ("l0", "l1")]
+    body += [("un", a, "i0", "p0"), ("un", b, "i1", "i0")]
+    if rng.random() < 0.3:
+        body += [("un", rng.choice(narrow), "i2", "i1"), ("bin", "add", 3, "i1", "i2", "i3")]
+    body.append(("ret", "i1"))
+    return {"name": "m%d" % idx, "ret": "I", "params": ["I"], "body": body}
+
+
+def gen_switch_shared(rng, idx):
+    """a packed switch in which two or three keys lead to the same block, with and without a default that assigns"""
+    body = [("const", r, 0) for r in ("i0", "i1", "i2", "i3")] + [("const", r, 0) for r in ("l0", "l1")]
+    a = [("bin", "add", 8, "i0", "p1", rng.choice((1, 2, 3)))]
+    b = [("bin", "mul", 8, "i0", "p1", rng.choice((5, 7, 11)))]
+    c = [("bin", "xor", 16, "i0", "p1", rng.choice((1000, 77)))]
+    shape = rng.choice(([a, 0, b], [a, b, 1], [a, 0, 0, b], [a, b, 0, c], [a, 0]))
+    default = rng.choice(([], [("const", "i0", rng.choice((15, -4)))]))
+    body += [("switch", "p0", shape, default), ("ret", "i0")]
+    return {"name": "m%d" % idx, "ret": "I", "params": ["I", "I"], "body": body}
 
 
 def gen_const_fold(rng, idx):
@@ -226,13 +254,17 @@ def assemble(m):
             ins.append(("label", l_end))
         elif k == "switch":
             _, reg, cases, default = s
-            labs = [lab() for _ in cases]
+            labs = []
+            for body in cases:                       # a case given as an int shares the target of that earlier case
+                labs.append(labs[body] if isinstance(body, int) else lab())
             l_end = lab()
             ins.append(("bin", "and", 8, "s0", reg, 3))
             ins.append(("pswitch", "s0", labs))
             emit_block(default)
             ins.append(("goto", l_end))
             for lb, body in zip(labs, cases):
+                if isinstance(body, int):
+                    continue
                 ins.append(("label", lb))
                 emit_block(body)
                 ins.append(("goto", l_end))
